@@ -85,12 +85,13 @@ func c17Find(start, stop string) (out c17Out) {
 }
 
 type c17Case struct {
-	Levels     []int `json:"levels"`                // variant per level, top first
-	Start      int   `json:"start"`                 // level index
-	Stop       int   `json:"stop"`                  // level index, or -1 = unrelated directory
-	ChildAfter bool  `json:"child_after,omitempty"` // chain directories sort after "spokfile"
-	StartSp    int   `json:"start_sp,omitempty"`    // how the start directory is spelled (c17Spell)
-	StopSp     int   `json:"stop_sp,omitempty"`     // how the stop directory is spelled
+	Levels     []int  `json:"levels"`                // variant per level, top first
+	Start      int    `json:"start"`                 // level index
+	Stop       int    `json:"stop"`                  // level index, or -1 = unrelated directory
+	ChildAfter bool   `json:"child_after,omitempty"` // chain directories sort after "spokfile"
+	Name       string `json:"name,omitempty"`        // name of the chain directories when neither "k" nor "zz" (e.g. "..d": starts with two dots)
+	StartSp    int    `json:"start_sp,omitempty"`    // how the start directory is spelled (c17Spell)
+	StopSp     int    `json:"stop_sp,omitempty"`     // how the stop directory is spelled
 }
 
 var c17SpellNames = []string{"clean", "trailing-slash", "trailing-slash-dot", "doubled-separator", "down-and-up"}
@@ -166,6 +167,13 @@ type c17Result struct {
 	Samples  []map[string]any `json:"samples"`
 }
 
+func (c c17Case) dirName() string {
+	if c.Name != "" {
+		return c.Name
+	}
+	return c17Name(c.ChildAfter)
+}
+
 func c17Name(childAfter bool) string {
 	if childAfter {
 		return "zz"
@@ -229,7 +237,7 @@ func c17RunCase(c c17Case, dirs []string, unrelated string, res *c17Result) {
 		if len(res.Viol) < 40 {
 			var m map[string]any
 			json.Unmarshal(pool.MustJSON(c), &m)
-			res.Viol = append(res.Viol, ev.Violation{Engine: "cfgmc-c17", Key: fmt.Sprintf("levels=%v start=%d stop=%d childAfter=%v spell=%d/%d", c.Levels, c.Start, c.Stop, c.ChildAfter, c.StartSp, c.StopSp), Class: cls,
+			res.Viol = append(res.Viol, ev.Violation{Engine: "cfgmc-c17", Key: fmt.Sprintf("levels=%v start=%d stop=%d childAfter=%v spell=%d/%d", c.Levels, c.Start, c.Stop, c.dirName(), c.StartSp, c.StopSp), Class: cls,
 				What: fmt.Sprintf("chain %s start=level%d (spelled %s) stop=%s (spelled %s): %s", c17Describe(c), c.Start, c17SpellNames[c.StartSp], c17StopName(c.Stop), c17SpellNames[c.StopSp], what), Case: m})
 		}
 	}
@@ -269,18 +277,20 @@ func c17Worker(args []string) {
 	res := c17Result{Outcomes: map[string]int64{}}
 	prog := pool.OpenProgress()
 	prog.Watchdog(60 * time.Second)
-	childNames := []bool{false}
+	childNames := []string{"k", "..d"}
 	if tier == "thorough" {
-		childNames = []bool{false, true}
+		childNames = []string{"k", "zz", "..d"}
 	}
-	for _, after := range childNames {
-		base := filepath.Join(root, "w"+c17Name(after))
+	for _, name := range childNames {
+		after := name == "zz"
+		bareOnly := name == "..d" && tier != "thorough" // quick: the unusual name with the 16 chains of bare levels
+		base := filepath.Join(root, "w"+name)
 		unrelated := filepath.Join(base, "u", "v")
 		os.MkdirAll(unrelated, 0o755)
 		dirs := make([]string, c17Depth)
 		d := filepath.Join(base, "c")
 		for i := 0; i < c17Depth; i++ {
-			d = filepath.Join(d, c17Name(after))
+			d = filepath.Join(d, name)
 			dirs[i] = d
 		}
 		os.MkdirAll(dirs[c17Depth-1], 0o755)
@@ -293,6 +303,9 @@ func c17Worker(args []string) {
 				for start := 0; start < c17Depth; start++ {
 					for stop := -1; stop < c17Depth; stop++ {
 						c := c17Case{Levels: append([]int{}, levels...), Start: start, Stop: stop, ChildAfter: after}
+						if name != "k" && name != "zz" {
+							c.Name = name
+						}
 						c17RunCase(c, dirs, unrelated, &res)
 						// the same directories under other spellings: all chains in the thorough tier,
 						// the 16 chains of bare {nothing, spokfile} levels in the quick one
@@ -328,6 +341,9 @@ func c17Worker(args []string) {
 				l, h = lo, hi
 			}
 			for v := l; v < h; v++ {
+				if bareOnly && v != 0 && v != 4 {
+					continue
+				}
 				levels[i] = v
 				c17Populate(dirs[i], v)
 				rec(i + 1)
@@ -431,7 +447,7 @@ func c17Check(tier string) int {
 	run.Set("evaluations", total.Calls)
 	run.Set("distinct_nontrivial", total.Nontriv)
 	run.Set("outcomes", total.Outcomes)
-	run.Set("rule", "states = directory chains of depth 4, each level independently one of 12 contents ({nothing, a file sorting before, after, both} x {no spokfile, regular file, directory named spokfile}); transitions = file.Find(start, stop) calls for every start level x stop in {every level, an unrelated directory} (thorough: also with chain directory names sorting after 'spokfile'), and with start and stop each spelled in five ways (clean, trailing slash, trailing /., doubled separator, down into a sub-directory and up again) for the 16 chains of bare levels (thorough: all chains); non-termination is a deterministic verdict (a counting logger sees a directory visited a third time); non-trivial = search that looks in more than one directory")
+	run.Set("rule", "states = directory chains of depth 4, each level independently one of 12 contents ({nothing, a file sorting before, after, both} x {no spokfile, regular file, directory named spokfile}); transitions = file.Find(start, stop) calls for every start level x stop in {every level, an unrelated directory} (also with chain directories named '..d'; thorough: also with names sorting after 'spokfile'), and with start and stop each spelled in five ways (clean, trailing slash, trailing /., doubled separator, down into a sub-directory and up again) for the 16 chains of bare levels (thorough: all chains); non-termination is a deterministic verdict (a counting logger sees a directory visited a third time); non-trivial = search that looks in more than one directory")
 	run.Assumes("no file named spokfile exists above the sandbox (checked)", "Find keeps logging each directory it looks in; a non-logging implementation is still covered by the worker watchdog (60 s)")
 	return run.Finish()
 }
@@ -452,7 +468,7 @@ func c17Replay(path string) int {
 	dirs := make([]string, c17Depth)
 	d := filepath.Join(base, "c")
 	for i := 0; i < c17Depth; i++ {
-		d = filepath.Join(d, c17Name(c.ChildAfter))
+		d = filepath.Join(d, c.dirName())
 		dirs[i] = d
 	}
 	os.MkdirAll(d, 0o755)
@@ -490,7 +506,7 @@ func c17Binary(run *ev.Run) int64 {
 			}
 		}
 		for start := 1; start <= 3; start++ {
-			for _, style := range []string{"real", "link", "home-trailing-slash", "home-doubled-separator", "cwd-trailing-slash", "cwd-doubled-separator", "cwd-down-and-up", "unreadable-1", "unreadable-2", "unreadable-3"} {
+			for _, style := range []string{"real", "link", "home-trailing-slash", "home-doubled-separator", "cwd-trailing-slash", "cwd-doubled-separator", "cwd-down-and-up", "cwd-through-self-link", "unreadable-1", "unreadable-2", "unreadable-3"} {
 				home := filepath.Join(root, "real/home")
 				cwd := filepath.Join(root, levels[start])
 				unreadable := 0
@@ -511,6 +527,14 @@ func c17Binary(run *ev.Run) int64 {
 						continue
 					}
 					cwd = filepath.Join(root, levels[start+1]) + "/.."
+				case "cwd-through-self-link":
+					// L1/self -> . : the working directory is spelled through a link to the link's own directory
+					if start != 3 {
+						continue
+					}
+					os.Symlink(".", filepath.Join(root, "real/home/L1/self"))
+					os.Lchown(filepath.Join(root, "real/home/L1/self"), 65534, 65534)
+					cwd = filepath.Join(root, "real/home/L1/self/L2")
 				case "unreadable-1", "unreadable-2", "unreadable-3":
 					// a directory on the way that may be entered but not listed
 					unreadable = int(style[len(style)-1] - '0')
@@ -524,6 +548,7 @@ func c17Binary(run *ev.Run) int64 {
 				if unreadable > 0 {
 					os.Chmod(filepath.Join(root, levels[unreadable]), 0o755)
 				}
+				os.Remove(filepath.Join(root, "real/home/L1/self"))
 				want := -1
 				for i := start; i >= 1; i-- {
 					if mask&(1<<i) != 0 {
@@ -533,7 +558,7 @@ func c17Binary(run *ev.Run) int64 {
 				}
 				key := fmt.Sprintf("binary mask=%d start=%d style=%s", mask, start, style)
 				desc := fmt.Sprintf("spokfiles at levels %04b (bit 0 = the directory above $HOME), cwd = level %d, $HOME %s", mask, start, map[string]string{"real": "a plain path", "link": "a symbolic link, cwd below it", "home-trailing-slash": "with a trailing slash", "home-doubled-separator": "with a doubled separator",
-					"cwd-trailing-slash": "plain, $PWD with a trailing slash", "cwd-doubled-separator": "plain, $PWD with a doubled separator", "cwd-down-and-up": "plain, $PWD = <sub-directory>/..",
+					"cwd-trailing-slash": "plain, $PWD with a trailing slash", "cwd-doubled-separator": "plain, $PWD with a doubled separator", "cwd-down-and-up": "plain, $PWD = <sub-directory>/..", "cwd-through-self-link": "plain, $PWD goes through a symbolic link to its own directory",
 					"unreadable-1": "plain, level 1 has mode 0311", "unreadable-2": "plain, level 2 has mode 0311", "unreadable-3": "plain, level 3 has mode 0311"}[style])
 				c := map[string]any{"mask": mask, "start": start, "style": style}
 				if o.Died() {
